@@ -293,7 +293,60 @@ func genC06() *rapid.Generator[*Spec] {
 		if key == m.K(s.Injectors[k].Out) {
 			pos = "root"
 		}
-		mut := x.pick([]string{"remove", "remove", "remove", "nearmiss", "nearmiss", "alias", "remove-one", "remove-one"}, "mut")
+		mut := x.pick([]string{"remove", "remove", "remove", "nearmiss", "nearmiss", "alias", "remove-one", "remove-one", "twin-type", "twin-type"}, "mut")
+		if mut == "twin-type" {
+			// the provider now returns a type of the same name from another package of the same
+			// name; a consumer takes both, the twin first: the original has no source any more
+			done := false
+			if src.Kind == "func" {
+				st := resolveT(s, src.T)
+				if st.K == "named" && len(st.Args) == 0 && s.Decls[st.Decl].Form == "struct" && isExportedName(s.Decls[st.Decl].Name) {
+					for ci := range s.Items {
+						c := &s.Items[ci]
+						if c.Kind != "func" || c.Variadic {
+							continue
+						}
+						for pi, pt := range c.Params {
+							if m.K(pt) == key {
+								od := s.Decls[st.Decl]
+								s.Pkgs = append(s.Pkgs, Pkg{Dir: x.fresh("twinpkg"), Name: s.Pkgs[od.Pkg].Name})
+								np := len(s.Pkgs) - 1
+								if s.ImportAlias == nil {
+									s.ImportAlias = map[int]string{}
+								}
+								s.ImportAlias[np] = x.fresh("twp")
+								s.Decls = append(s.Decls, Decl{Pkg: np, Name: od.Name, Form: "struct", Fields: []SField{{Name: "Tok", T: Basic("int")}}})
+								twin := Named(len(s.Decls) - 1)
+								// the consumer and the provider must be able to import the new package
+								if c.Pkg != 0 || s.Items[src.Item].Pkg != 0 {
+									// keep it simple: only when both live in the root package
+									s.Pkgs = s.Pkgs[:np]
+									s.Decls = s.Decls[:len(s.Decls)-1]
+									delete(s.ImportAlias, np)
+									break
+								}
+								s.Items[src.Item].Out = twin
+								np2 := append([]*Type{}, c.Params[:pi]...)
+								np2 = append(np2, twin)
+								np2 = append(np2, c.Params[pi:]...)
+								c.Params = np2
+								done = true
+								break
+							}
+						}
+						if done {
+							break
+						}
+					}
+				}
+			}
+			if done {
+				s.Note = fmt.Sprintf("C06 twin-type pos=%s", pos)
+				refreshPlan(s)
+				return s
+			}
+			mut = "remove"
+		}
 		if mut == "remove-one" {
 			// the source disappears from this injector's own Build list only; other injectors keep it
 			done := false
